@@ -362,8 +362,8 @@ def check_C11(tier, seed):
     p, genbin = build_bin("genrun")
     if p.returncode != 0:
         raise ToolError("genrun build failed:\n" + (p.stdout or "")[-3000:])
-    for opts in ({}, {"pest_optimizer": False}):
-        jobs = [{"idx": i, "text": g["text"], "opts": opts} for i, g in enumerate(grams)]
+    for opts, split in (({}, False), ({"pest_optimizer": False}, False), ({}, True)):
+        jobs = [{"idx": i, "text": g["text"], "opts": opts, "split": split} for i, g in enumerate(grams)]
         obs = run_text(genbin, jobs, procs=8)
         for i, g in enumerate(grams):
             o = obs.get(i)
@@ -372,10 +372,10 @@ def check_C11(tier, seed):
             if v["rejected"]:
                 ctx.cov["distinct_nontrivial"] += 1
             if o is None or o["panic"] != v["rejected"]:
-                ctx.violation("generator %s a grammar the validator %s (%s; options %s): %s" % (
+                ctx.violation("generator %s a grammar the validator %s (%s; options %s%s): %s" % (
                     "accepted" if v["rejected"] else "refused", "rejects" if v["rejected"] else "accepts",
-                    [x for x in v["reasons"] if x["why"]], opts, g["text"].replace("\n", " ; ")),
-                    {"kind": "generator", "grammar": g["text"], "opts": opts, "model": v, "observed": o})
+                    [x for x in v["reasons"] if x["why"]], opts, "; one #[grammar_inline] per rule" if split else "", g["text"].replace("\n", " ; ")),
+                    {"kind": "generator", "grammar": g["text"], "opts": opts, "split_sources": split, "model": v, "observed": o})
         if len(ctx.cov["samples"]) < 3:
             k = next(i for i, g in enumerate(grams) if verdict[g["id"]]["rejected"])
             ctx.cov["samples"].append({"grammar": grams[k]["text"], "model_verdict": verdict[grams[k]["id"]], "generator": obs.get(k)})
@@ -482,3 +482,397 @@ def check_C19(tier, seed):
     ctx.cov["traces_validated_against_impl"] += len(jobs)
     ctx.notes["cells"] = len(cs)
     return ctx.finish(rule="cells = RepeatMinMax / RepeatMin over MIN, MAX in 0..4 (all pairs, also MIN > MAX) x SKIP in {0,1} x element kinds {string, choice, nested repetition, POP, DROP, PUSH}, plus [T;N], (T1,T2), Option<T>, SkipChar<N>, AtomicRepeat<T>; each instantiated directly from the runtime crate next to the model expression it denotes (rep(e,MIN,MAX) in a normal / atomic rule with WHITESPACE = \" \"); stack cells are preceded by PUSH(\"a\"){,3} ~ \";\". TLC runs the machine (M11: never more than MAX iterations; M1) on all inputs up to length %d over {a, b, c, space}; verdict, offset, final stack, element count (from the model's derivation record) and parse = check are compared" % L)
+
+
+def _mentions(e, out, neg=False):
+    t = e["t"]
+    if t == "call":
+        if not neg:
+            out.add(e["n"])
+    elif t in ("seq", "alt"):
+        for x in e["xs"]:
+            _mentions(x, out, neg)
+    elif t in ("opt", "rep", "pos", "push", "restore"):
+        _mentions(e["e"], out, neg)
+    elif t == "neg":
+        _mentions(e["e"], out, True)
+
+
+def check_C16(tier, seed):
+    import props, families
+    ctx = Ctx("C16", tier, seed)
+    variants = [("o", {"emit_rule_reference": True}, "opt"), ("s", {"emit_rule_reference": True, "pest_optimizer": False}, "src")]
+    famgen.sync_workspace()
+    p, genbin = build_bin("genrun")
+    if p.returncode != 0:
+        raise ToolError("genrun build failed:\n" + (p.stdout or "")[-3000:])
+    for vtag, opts, ast in variants:
+        grams = families.fam_get(tier)
+        for g in grams:
+            g["id"] = g["id"] + vtag
+            g["opts"] = opts
+        path, corpus = peg.make_corpus(grams, "c16" + vtag)
+        gobs = run_text(genbin, [{"idx": i, "text": g["text"], "opts": opts, "want": "getters"} for i, g in enumerate(grams)], procs=4)
+        for i, (g, c) in enumerate(zip(grams, corpus)):
+            kinds = c["kinds"]
+            rules = {r["name"]: r for r in (c["rules_src"] if ast == "src" else c["rules_opt"])}
+            gen = gobs[i].get("getters", {})
+            g["entries"] = [n for n in c["rule_names"] if n.startswith("r")]
+            g["custom"] = {}
+            g["getters"] = {}
+            extra = ""
+            for rn in g["entries"]:
+                if kinds[rn] == "atomic":
+                    continue
+                ment = set()
+                _mentions(rules[rn]["expr"], ment)
+                exp = sorted(n for n in ment if n in kinds or n == "EOI")
+                have = sorted(n for n, _ in gen.get(rn, []) if n in kinds or n == "EOI")
+                ctx.cov["evaluations"] += 1
+                if exp != have:
+                    ctx.violation("getters of rule %s: expected accessors for %s, generated %s (%s)" % (rn, exp, have, rules[rn]["expr"]),
+                                  {"kind": "generator", "grammar": g["text"], "opts": opts, "rule": rn, "expected": exp, "observed": have})
+                names = [n for n in have if n in exp]
+                g["getters"][rn] = names
+                body = ""
+                for n in names:
+                    spanned = n == "EOI" or kinds.get(n) != "silent"
+                    if spanned:
+                        body += '            { let g = node.r#%s(); let mut v = vec![]; hcommon::Flat::<t::Rule>::flat(&g, &mut v); m.insert("%s".into(), serde_json::json!({"spans": hcommon::spans_json(&v), "shape": hcommon::Flat::<t::Rule>::shape(&g)})); }\n' % (n, n)
+                    else:
+                        body += '            { let g = node.r#%s(); m.insert("%s".into(), serde_json::json!({"cnt": hcommon::Cnt::cnt(&g), "shape": hcommon::Cnt::cshape(&g)})); }\n' % (n, n)
+                extra += """
+pub fn custom_%s(job: &hcommon::Job) -> serde_json::Value {
+    use pest_typed::ParsableTypedNode;
+    match t::rules::r#%s::try_parse_partial(job.full.as_str()) {
+        Ok((_, node)) => {
+            let mut m = serde_json::Map::new();
+%s            let _ = &node;
+            serde_json::Value::Object(m)
+        }
+        Err(_) => serde_json::json!({"fail": true}),
+    }
+}
+""" % (rn, rn, body)
+                g["custom"][rn] = "custom_%s" % rn
+            g["extra"] = extra
+        rows = props.run_generic(ctx, "c16" + vtag, grams, "sX", lambda rec, job, obs, gram: [], ast=ast, emit="dv", with_pest=False)
+        for rec, job, obs, gram in rows:
+            if not rec["ok"] or "x" not in obs:
+                continue
+            x = obs["x"]
+            if "fail" in x or "panic" in x:
+                continue      # verdict mismatches are C01's business
+            kinds = next(c for c in corpus if c["id"] == gram["id"])["kinds"]
+            for n in gram["getters"].get(job["rule"], []):
+                direct = [c for c in rec["calls"] if c[0] == n and c[3] == 1]
+                o = x.get(n)
+                if o is None:
+                    continue
+                if "spans" in o:
+                    exp = [[c[1], c[2]] for c in direct]
+                    if o["spans"] != exp:
+                        ctx.violation("getter %s.%s() on %r (%s): expected nodes at %s, got %s  shape %s" % (job["rule"], n, uncps(job["inp"]), "optimizer off" if ast == "src" else "default", exp, o["spans"], o["shape"]),
+                                      props.replay_of(rec, job, obs, gram, "getter %s" % n, exp, o))
+                else:
+                    if o["cnt"] != len(direct):
+                        ctx.violation("getter %s.%s() on %r: expected %d nodes, got %d  shape %s" % (job["rule"], n, uncps(job["inp"]), len(direct), o["cnt"], o["shape"]),
+                                      props.replay_of(rec, job, obs, gram, "getter %s" % n, len(direct), o))
+                ctx.notes["getter_calls_compared"] = ctx.notes.get("getter_calls_compared", 0) + 1
+                if direct:
+                    ctx.notes["getter_calls_nonempty"] = ctx.notes.get("getter_calls_nonempty", 0) + 1
+                if len(ctx.cov["samples"]) < 4 and len(direct) >= 2:
+                    ctx.cov["samples"].append({"rule": job["rule"], "body": [l for l in gram["text"].splitlines() if l.startswith(job["rule"] + " ")][0], "input": uncps(job["inp"]), "getter": n, "expected_spans": [[c[1], c[2]] for c in direct], "observed": o})
+    return ctx.finish(rule="family get: ~50 bodies enumerating mention positions (x, x?, x*, x ~ x, (x | y ~ x), (x ~ y)*, &x ~ x, !x ~ y, PUSH(x), nestings to depth 4, through silent and atomic rules) under normal / silent / compound / non-atomic rules, with and without WHITESPACE, compiled with emit_rule_reference and again with pest_optimizer = false; the machine's call queue (calls made directly by the rule body, positive predicates and PUSH included, negative predicates and implicit skips excluded) gives Direct(r, x) for every accepted input; every generated getter is called and flattened (Option / Vec / tuples) to the spans of the nodes it returns (silent rules: node count) and compared in order; the set of generated accessors is compared with the rules mentioned outside negative predicates")
+
+
+def check_C17(tier, seed):
+    import props, arityfam
+    ctx = Ctx("C17", tier, seed)
+    grams = arityfam.fam_arity(tier)
+    rows = props.run_generic(ctx, "c17", grams, "sX", lambda rec, job, obs, gram: [], emit="dv", with_pest=False)
+    for rec, job, obs, gram in rows:
+        if not rec["ok"] or "x" not in obs:
+            continue
+        x = obs["x"]
+        text = uncps(job["inp"]).encode()
+        sub = lambda s, e: text[s:e].decode()
+        kind, arg = gram["expect"].get(job["rule"], (None, None))
+        if kind is None:
+            continue
+        d = []
+        if "fail" in x or "panic" in x:
+            d.append(("accessors", "a result", x))
+        elif kind == "choice":
+            alt = next(e for e in rec["dv"] if e["k"] == "alt" and e["d"] == 1)
+            i, n = alt["i"], alt["n"]
+            exp = {"somes": [k == i for k in range(n)], "if_then": i, "reference": i, "consume": i, "match_choices": i}
+            for f in exp:
+                if x.get(f) != exp[f]:
+                    d.append((f, exp[f], x.get(f)))
+        elif kind == "seq":
+            elems = [e for e in rec["dv"] if e["k"] == "elem" and e["d"] == 1]
+            chars = [sub(e["m"], e["e"]) for e in elems]
+            # skipped text before each element: the WHITESPACE tokens between s and m (one per blank)
+            ga = [[[[p, p + 1] for p in range(e["s"], e["m"])], sub(e["m"], e["e"])] for e in elems]
+            exp = {"get_matched": chars, "as_ref": chars, "into_matched": chars, "get_all": ga}
+            for f in exp:
+                if x.get(f) != exp[f]:
+                    d.append((f, exp[f], x.get(f)))
+        elif kind == "rep":
+            its = [e for e in rec["dv"] if e["k"] == "iter" and e["d"] == 1]
+            repn = [e for e in rec["dv"] if e["k"] == "rep" and e["d"] == 1][0]["n"]
+            its = its[:repn]
+            chars = [sub(e["m"], e["e"]) for e in its]
+            allx = [[[[p, p + 1] for p in range(e["s"], e["m"])], sub(e["m"], e["e"])] for e in its]
+            exp = {"iter_matched": chars, "into_iter_matched": chars, "into_iter_all": chars, "iter_all": allx, "len": len(chars)}
+            for f in exp:
+                if x.get(f) != exp[f]:
+                    d.append((f, exp[f], x.get(f)))
+        elif kind == "leaf":
+            leaves = [e for e in rec["dv"] if e["k"] == "leaf" and e["d"] == 1]
+            lf = leaves[-1]
+            got = x.get("leaf")
+            want = sub(lf["s"], lf["e"])
+            if job["rule"] == "lf3":
+                want = {"\r\n": "CRLF", "\n": "LF", "\r": "CR"}[want]
+            if got != want:
+                d.append(("leaf content of %s" % lf["r"], want, got))
+        ctx.notes["accessor_records_compared"] = ctx.notes.get("accessor_records_compared", 0) + 1
+        if d:
+            f, e, o = d[0]
+            ctx.violation("%s: %s on %r: expected %s observed %s" % (f, job["rule"], uncps(job["inp"]), json.dumps(e, ensure_ascii=False)[:140], json.dumps(o, ensure_ascii=False)[:140]),
+                          props.replay_of(rec, job, obs, gram, f, e, o))
+        elif len(ctx.cov["samples"]) < 5 and kind in ("choice", "seq") and rec["end"] >= 2:
+            ctx.cov["samples"].append({"rule": job["rule"], "input": uncps(job["inp"]), "accessors": x})
+    return ctx.finish(rule="family arity: choices of arity 2..16 with overlapping alternatives (\"ab\" | \"a\" | \"b\" | \"ba\" | ...; 13..16 use the on-demand choices! expansion), sequences of arity 2..16 of character ranges with WHITESPACE between, repetitions (normal, compound, inside a sequence) and one rule per leaf kind (range across the ASCII boundary, ANY, ^insensitive, NEWLINE, Unicode properties, ASCII_DIGIT, PEEK, POP, PEEK_ALL, POP_ALL). The machine's derivation queue gives the chosen alternative, the (skipped, matched) span of every element / iteration and the text of every leaf; generated Rust code calls _k(), if_then/else_if/else_then, reference(), consume(), match_choices!, get_matched / as_ref / into_matched / get_all, iter_matched / into_iter_matched / iter_all / into_iter_all and the leaf fields")
+
+
+def _hist_code(rules):
+    variants = "\n".join("    r_%s(t::rules::r#%s<'i>)," % (r, r) for r in rules)
+    calls = "\n".join("""            "%s" => match t::rules::r#%s::try_parse_partial(span) {
+                Ok((rest, n)) => {
+                    let h = hcommon_hash(&n);
+                    let c = n.clone();
+                    info.push(serde_json::json!({"ok": true, "end": rest.byte_offset(), "dbg": format!("{:?}", n), "hash": h, "clone_eq": c == n, "clone_hash_eq": hcommon_hash(&c) == h}));
+                    res.push(Any::r_%s(n));
+                }
+                Err(_) => { info.push(serde_json::json!({"ok": false})); res.push(Any::Fail); }
+            },""" % (r, r, r) for r in rules)
+    eqs = "\n".join("            (Any::r_%s(a), Any::r_%s(b)) => if a == b { 1 } else { 0 }," % (r, r) for r in rules)
+    return """
+#[allow(non_camel_case_types)]
+enum Any<'i> {
+%s
+    Fail,
+}
+fn hcommon_hash<T: std::hash::Hash>(t: &T) -> String {
+    use std::hash::Hasher;
+    let mut h = std::collections::hash_map::DefaultHasher::new();
+    t.hash(&mut h);
+    format!("{:016x}", h.finish())
+}
+pub fn history(job: &hcommon::Job) -> serde_json::Value {
+    use pest_typed::{Input, ParsableTypedNode};
+    let full: &str = job.full.as_str();     // ONE input object for the whole history
+    let mut res: Vec<Any> = vec![];
+    let mut info: Vec<serde_json::Value> = vec![];
+    for call in job.raw["hist"].as_array().unwrap() {
+        let rule = call[0].as_str().unwrap();
+        let (lo, hi) = (call[1].as_u64().unwrap() as usize, call[2].as_u64().unwrap() as usize);
+        let span = pest_typed::Span::new(full, lo, hi).unwrap();
+        match rule {
+%s
+            _ => { info.push(serde_json::json!({"unknown": true})); res.push(Any::Fail); }
+        }
+    }
+    let mut eq = vec![];
+    for a in res.iter() {
+        let mut row = vec![];
+        for b in res.iter() {
+            row.push(match (a, b) {
+%s
+                _ => -1,
+            });
+        }
+        eq.push(row);
+    }
+    serde_json::json!({"info": info, "eq": eq})
+}
+""" % (variants, calls, eqs)
+
+
+def check_C18(tier, seed):
+    import props
+    ctx = Ctx("C18", tier, seed)
+    text = "\n".join(['WHITESPACE = { " " }', "w = { 'a'..'c' ~ \"!\"? }", "s = _{ 'a'..'c' ~ \"!\" }", 'o = { (&"ab")? ~ "a" }', "l = { w ~ w* }",
+                      'c = ${ ("ab" | "a") ~ ^"B"? }', "p = { PUSH('a'..'b') ~ PEEK }", "n = !{ s ~ s? }"])
+    full = "a! b!ab a!aBaa b! a!"
+    rules = ["w", "s", "o", "l", "c", "p", "n"]
+    g = dict(id="hi0", text=text, alphabet=[], maxlen=0, inputs=[cps(full)], entries=rules)
+    path, corpus = peg.make_corpus([g], "c18")
+    # pool of (rule, sub-range): same text at different places, same start with different ends, overlapping ranges
+    L = len(full)
+    pool = []
+    rnd = random.Random(seed)
+    ranges = [(0, 2), (9, 11), (18, 20), (0, L), (0, 5), (3, 5), (3, L), (5, 7), (5, 6), (11, 13), (11, 14), (13, 15), (13, 14), (15, 19), (0, 1), (9, 10), (5, 9), (2, 5), (1, 5)]
+    for r in rules:
+        for (lo, hi) in ranges:
+            pool.append({"g": 1, "rule": r, "lo": lo, "hi": hi})
+    npool = 10 if tier == "quick" else 16
+    H = 3 if tier == "quick" else 4
+    rounds = 4 if tier == "quick" else 8
+    g["rules"] = rules
+    g["extra"] = _hist_code(rules)
+    g["arms"] = ['        ("hi0", "__hist") => hi0::history(job),']
+    shards = famgen.gen_family("c18", [g], with_pest=False)
+    bins, errs = famgen.build_family(shards)
+    if bins is None:
+        raise ToolError("C18 harness build failed: %s" % errs)
+    binp = bins[shards[0][0]]
+    tot_hist = 0
+    for rd in range(rounds):
+        # two rules per pool, several sub-ranges each, so that results of the same type meet in most histories
+        pairs = [("w", "s"), ("o", "l"), ("c", "p"), ("n", "s"), ("s", "o"), ("l", "w"), ("p", "n"), ("c", "o")]
+        ra, rb = pairs[rd % len(pairs)]
+        must = [(0, 2), (3, 5), (9, 11)]
+        sub = []
+        for r in (ra, rb):
+            rs = must + rnd.sample([x for x in ranges if x not in must], npool // 2 - len(must))
+            sub += [{"g": 1, "rule": r, "lo": lo, "hi": hi} for lo, hi in rs]
+        # make sure the same (rule) occurs several times so that == between results is exercised
+        cj = {"grammars": [dict(corpus[0], full=cps(full))], "pool": sub}
+        d = peg.tmpdir("c18")
+        cp = os.path.join(d, "hist%d.json" % rd)
+        json.dump(cj, open(cp, "w"))
+        recs, st = peg.run_tlc(cp, "c18", cfg="ApiHistory.cfg", module="ApiHistory.tla", extra_env={"VERIF_MAXH": str(H)})
+        if not st["ok"]:
+            raise ToolError("TLC failed on ApiHistory:\n" + st.get("tail", "")[-3000:])
+        ctx.add_stats(st)
+        jobs = []
+        for i, r in enumerate(recs):
+            jobs.append({"idx": i, "g": "hi0", "rule": "__hist", "inp": cps(full), "pre": [], "post": [], "modes": "",
+                         "hist": [[c["rule"], c["lo"], c["hi"]] for c in r["calls"]]})
+        res = peg.run_runner(binp, jobs)
+        tot_hist += len(recs)
+        firstdbg = {}
+        for i, r in enumerate(recs):
+            o = res.get(i, {})
+            ctx.cov["evaluations"] += 1
+            if any(c["ok"] for c in r["calls"]):
+                ctx.cov["distinct_nontrivial"] += 1
+            d = []
+            if "info" not in o:
+                d.append(("history run", "a result", o))
+            else:
+                for k, (c, inf) in enumerate(zip(r["calls"], o["info"])):
+                    if inf.get("ok") != c["ok"] or (c["ok"] and inf["end"] != c["end"]):
+                        d.append(("call %d result" % k, {"ok": c["ok"], "end": c["end"]}, inf))
+                    elif c["ok"]:
+                        if not inf["clone_eq"] or not inf["clone_hash_eq"]:
+                            d.append(("clone of call %d" % k, "equal and equally hashed", inf))
+                        key = (c["rule"], c["lo"], c["hi"])
+                        if key in firstdbg and firstdbg[key] != inf["dbg"]:
+                            d.append(("result of %s depends on the history" % (key,), firstdbg[key], inf["dbg"]))
+                        firstdbg.setdefault(key, inf["dbg"])
+                if not d:
+                    n = len(r["calls"])
+                    for a in range(n):
+                        for b in range(n):
+                            e, got = r["eq"][a][b], o["eq"][a][b]
+                            if e != got:
+                                d.append(("== of results %d and %d" % (a, b), e, got))
+                            elif e >= 0:
+                                ia, ib = o["info"][a], o["info"][b]
+                                if (e == 1) != (ia["dbg"] == ib["dbg"]):
+                                    d.append(("== vs Debug of results %d and %d" % (a, b), e, [ia["dbg"], ib["dbg"]]))
+                                if e == 1 and ia["hash"] != ib["hash"]:
+                                    d.append(("equal results hash differently (%d, %d)" % (a, b), ia["hash"], ib["hash"]))
+            if d:
+                f, e, ob = d[0]
+                ctx.violation("%s in history %s: expected %s observed %s" % (f, [[c["rule"], c["lo"], c["hi"]] for c in r["calls"]], json.dumps(e)[:150], json.dumps(ob)[:200]),
+                              {"kind": "history", "grammar": text, "input": full, "history": r["calls"], "field": f, "expected": e, "observed": ob, "model_eq": r["eq"]})
+            elif len(ctx.cov["samples"]) < 3 and sum(1 for row in r["eq"] for v in row if v == 1) > len(r["calls"]):
+                ctx.cov["samples"].append({"history": [[c["rule"], c["lo"], c["hi"]] for c in r["calls"]], "input": full, "equal_matrix": r["eq"]})
+    ctx.cov["traces_validated_against_impl"] += tot_hist
+    ctx.notes["histories"] = tot_hist
+    return ctx.finish(rule="ApiHistory.tla: histories of %d calls drawn with repetition and in every order from a pool of %d (rule, sub-range) pairs of one input string (%d pools per run, seeded), rules of kinds normal / silent / compound / non-atomic with WHITESPACE, predicates, choices, PUSH/PEEK; every call restarts the machine from its initial state; invariants: a call's result does not depend on its position in the history, Equal is symmetric and reflexive. For every history the real entry points are called in that order on ONE input object: verdict and offset per call, Debug of a call identical wherever it occurs, clone == original with equal hash, and for every pair of results of the same rule: == exactly as Equal (Canon of the derivation: what the typed tree stores), == iff same Debug, equal => equal hash. non-trivial = histories with at least one accepted call" % (H, npool, rounds))
+
+
+def fam_opt(tier):
+    ws = 'WHITESPACE = _{ " " }'
+    g = []
+    g.append(dict(id="op0", text='a = { "a" ~ b* }\nb = { "b" ~ c? }\nc = { a+ }', alphabet=cps("ab"), maxlen=4))
+    g.append(dict(id="op1", text=ws + '\ne = { t ~ ("+" ~ t)* }\nt = { f ~ ("*" ~ f)* }\nf = { "(" ~ e ~ ")" | n }\nn = @{ (\'0\'..\'1\')+ }',
+                  alphabet=cps("1+*() "), maxlen=3, inputs=[cps(s) for s in ["1+1*0", "(1+0)*1", "( 1 + 1 )", "1 + (0*(1))", "((1))", "1+", "(1", "1 1", "1*(0+1)*1"]]))
+    g.append(dict(id="op2", text=ws + '\nr = { "a"{2} ~ "b"{1,} ~ "c"{,2} ~ "d"{1,2} }\nl = { ("a" ~ "b")* ~ "a" }\np = !{ ("c")+ }\nq = ${ ("a" | "b"){2,3} ~ p? }\ns = _{ r | l ~ p }\nm = { ("a" | "b"){1,3} ~ "c" }\nk = { "a"{2,4} }\nj = !{ &("b"{1,2} ~ "c") ~ ANY* }',
+                  alphabet=cps("abc "), maxlen=4, inputs=[cps(s) for s in ["aabbcd", "aab cdd", "a a b c d", "aabbbccdd", "abab", "ababa", "ab a", "c c", "c ", "abc c", "ab c"]]))
+    g.append(dict(id="op3", text='v = { o | a | s | "t" }\no = { "{" ~ (m ~ ("," ~ m)*)? ~ "}" }\nm = { s ~ ":" ~ v }\na = { "[" ~ (v ~ ("," ~ v)*)? ~ "]" }\ns = @{ "\'" ~ (!"\'" ~ ANY)* ~ "\'" }',
+                  alphabet=cps("{}[],:t'"), maxlen=3, inputs=[cps(x) for x in ["{'t':t}", "[t,[t],{}]", "{'':[t,t]}", "[[[t]]]", "{'a':{'b':t}}", "[t,", "{'t'}", "'t"]]))
+    if tier != "quick":
+        g.append(dict(id="op4", text='x = { PUSH("a" | "b") ~ (y | "-")* ~ POP }\ny = { "(" ~ x ~ ")" | PEEK }', alphabet=cps("ab-()"), maxlen=4,
+                      inputs=[cps(x) for x in ["a-a", "a(b-b)a", "aaa", "a(bb)-a", "b(a(b-b)a)b"]]))
+        g.append(dict(id="op5", text=ws + '\nCOMMENT = _{ "#" ~ (!"#" ~ ANY)* ~ "#" }\ndoc = { SOI ~ (item ~ ";")* ~ EOI }\nitem = { key ~ "=" ~ val }\nkey = @{ ASCII_ALPHA+ }\nval = { key | "[" ~ val* ~ "]" }',
+                      alphabet=cps("a=;[] #"), maxlen=3, inputs=[cps(x) for x in ["a=a;", "a = [a a];", "a=[[a]a];a=a;", "a #c# = a ;", "a=[;", "a=a"]]))
+    return g
+
+
+def check_C20(tier, seed):
+    import props
+    ctx = Ctx("C20", tier, seed)
+    on_sets = [{}, {"box_only_if_needed": True}, {"emit_rule_reference": True, "do_not_emit_span": True}, {"emit_tagged_node_reference": True, "no_warnings": True},
+               {"box_only_if_needed": True, "emit_rule_reference": True, "emit_tagged_node_reference": True, "do_not_emit_span": True, "no_warnings": True}]
+    off_sets = [{"pest_optimizer": False}, {"pest_optimizer": False, "box_only_if_needed": True, "emit_rule_reference": True}]
+    if tier == "quick":
+        on_sets = [on_sets[0], on_sets[1], on_sets[4]]
+        off_sets = off_sets[:1] + off_sets[1:]
+    base = fam_opt(tier)
+
+    def variants(sets, tag):
+        out = []
+        for si, opts in enumerate(sets):
+            for g in base:
+                x = dict(g)
+                x["id"] = "%s%s%d" % (g["id"], tag, si)
+                x["opts"] = opts
+                out.append(x)
+        return out
+
+    def cmp(rec, job, obs, gram):
+        d = props.cmp_c01(rec, job, obs, gram)
+        if not d:
+            d = props.cmp_c02(rec, job, obs, gram)
+        return d
+    # option sets that keep pest's optimizer: must equal the model on the optimized AST, no finding applies
+    props.run_generic(ctx, "c20on", variants(on_sets, "n"), "s", cmp, with_pest=False, use_known=False)
+    # optimizer off: the property demands the same outcome; mismatches must be exactly the source-AST reading (known finding)
+    props.run_generic(ctx, "c20off", variants(off_sets, "f"), "s", cmp, with_pest=False, use_known=True)
+    # generation is deterministic: N separate generator processes give byte-identical token streams
+    famgen.sync_workspace()
+    p, genbin = build_bin("genrun")
+    if p.returncode != 0:
+        raise ToolError("genrun build failed:\n" + (p.stdout or "")[-3000:])
+    N = 4 if tier == "quick" else 12
+    jobs = []
+    for opts in on_sets + off_sets:
+        for g in base:
+            jobs.append({"idx": len(jobs), "text": g["text"], "opts": opts, "gid": g["id"]})
+    hashes = []
+    for k in range(N):
+        env = dict(os.environ, VERIF_RUN=str(k), **{"VERIF_PAD_%d" % j: "x" * j for j in range(k)})
+        pr = subprocess.run([genbin], input="".join(json.dumps(j) + "\n" for j in jobs), stdout=subprocess.PIPE, stderr=subprocess.DEVNULL, text=True, env=env)
+        hs = {}
+        for line in pr.stdout.splitlines():
+            v = json.loads(line)
+            hs[v["idx"]] = v["obs"]
+        hashes.append(hs)
+        ctx.cov["evaluations"] += len(jobs)
+    for j in jobs:
+        vals = [h.get(j["idx"], {}).get("hash") for h in hashes]
+        if any(h.get(j["idx"], {}).get("panic") for h in hashes):
+            ctx.violation("generator panicked on a valid grammar %s with %s" % (j["gid"], j["opts"]), {"kind": "generator", "grammar": j["text"], "opts": j["opts"], "observed": [h.get(j["idx"]) for h in hashes]})
+        elif len(set(vals)) != 1:
+            ctx.violation("generation is not deterministic for %s with %s: %s" % (j["gid"], j["opts"], vals), {"kind": "generator", "grammar": j["text"], "opts": j["opts"], "observed": vals})
+    ctx.notes["generator_processes"] = N
+    ctx.notes["option_sets"] = [sorted(s) for s in on_sets + off_sets]
+    return ctx.finish(rule="family opt (mutually recursive grammars, arithmetic with WHITESPACE, counted repetitions + the lister shape, a JSON-like grammar, recursive stack grammar, comments) compiled under each option set (alone and together; pest_optimizer = false with and without reduced boxing); every behaviour of the machine is replayed on every variant: verdict, offset and pair tree must equal the model on the optimized AST (optimizer-off mismatches are accepted only when the machine on the SOURCE AST reproduces them exactly - known finding); the generator is run as a library in N separate processes (different environments) and the emitted token streams must be identical; compile success of the recursive grammars with reduced boxing is part of the harness build")
